@@ -208,11 +208,23 @@ KEEP = [
     ("C09.b IDX-GATHER", None),
     ("C09.c GREEDY-MASK", ("sorted-result", "overlap-mask", "pick")),
     ("C16.a SUBSET-NF", ("components", "record")),
-    ("C17.c ONE-INTERVAL-PER-SEGMENT", ("interval",)),
+    ("C17.c ONE-INTERVAL-PER-SEGMENT", ("interval", "position-order", "per-group", "no-merging")),
+    # the length limits the detections must respect are the configured ones only if they reach the driver in their roles
+    ("C03.i BINDING", ("lengths",)),
+    ("C02.g BINDING", ("driver-arguments",)),
+    ("C07.e WIRING", ("driver-arguments", "formatter")),
+    ("C08.d WIRING", ("transform-arguments", "formatter")),
+    ("C09.f WIRING", ("driver-arguments", "formatter")),
 ]
 
 
+# obligations of a kept rule that say nothing about the detections' form (the published scores)
+DROP = [("C02.f BACKTRACK", "prefix-scores")]
+
+
 def _wanted(o):
+    if any(rule in o.rule and k in o.key for rule, k in DROP):
+        return False
     for rule, keys in KEEP:
         if rule in o.rule:
             if keys is None or any(k in o.key for k in keys):
